@@ -71,7 +71,7 @@ PROPERTIES = {
         "rule": "enumeration: for every creating call x flag set, the k-th allocation request fails for every k (and k together with k+1), followed by the same call without a fault and a hash on the result; "
                 "seeded: histories with faults attached to creating calls among other live objects; a case is one history; distinct_nontrivial counts distinct history shapes",
         "assumptions": ["allocation requests = operator new, posix_memalign (_mm_malloc), mmap, mmap(MAP_HUGETLB) issued inside the call; malloc inside libstdc++'s exception allocation is not a request",
-                        "mprotect/munmap failures are not injected", "leak check: library-scope live blocks and mapped bytes, exact, around failed calls and at quiescence of every run"],
+                        "allocation faults are injected in the three creating calls only (what C15 is about); mprotect/munmap failures are not injected here", "leak check: library-scope live blocks and mapped bytes, exact, around failed calls and at quiescence of every run"],
         "expected_probes": ["creating_call_failed_cleanly"],
         "exhaustive": {"quick": True, "thorough": True},
         "tiers": {
@@ -86,7 +86,9 @@ PROPERTIES = {
         "classes": ["WX", "WX_KERNEL", "PROT_MODEL_MISMATCH", "BAD_MPROTECT"] + CRASH,
         "rule": HIST_RULE + "; only SECURE VMs are created; oracle: page-protection state machine at the mmap/mprotect seam (no page of a cache-owned or secure-VM-owned code buffer is ever W and X), "
                 "kernel view from /proc/self/maps compared with the model at a seeded subset of op boundaries",
-        "assumptions": ["code buffers are exactly the non-hugetlb mappings the library requests", "protection changes that bypass mmap/mprotect (none exist on Linux) would only be seen by the /proc/self/maps audit"],
+        "assumptions": ["code buffers are exactly the non-hugetlb mappings the library requests (anonymous ones live in the simulator's arena, views of file/shm objects are mapped by the kernel and tracked)",
+                        "protection changes that bypass mmap/mprotect (none exist on Linux) would only be seen by the /proc/self/maps audit",
+                        "faults: allocation failure in creating calls and inside a single-call hash (the caller catches and goes on), refused mprotect requests (after one, only W+X facts are judged; the unchanged library may crash because it ignores the result)"],
         "expected_probes": ["seam_rw_rx", "seam_audits"],
         "tiers": {
             "quick": [B("small-a", "plain", "small-a", 4000, 30), B("small-b", "plain", "small-b", 1000, 10), B("shipped", "plain", "shipped", 40, 40, workers=8, gate=4)],
@@ -103,7 +105,9 @@ PROPERTIES = {
                 "counted from the j-th scheduling point inside the call) - also inside hand-written assembly, JIT-emitted code and vector code the race detector cannot instrument",
         "assumptions": ["TSan sees instrumented C/C++ only; JIT-emitted code and the .S runtime are covered by results-vs-model and read-only page guards",
                         "TSan's bounded per-thread history can miss a race, never invent one; reports are accepted only if both accesses originate in librx.so",
-                        "threads are serialised by the simulator: real-time overlap is replaced by happens-before analysis"],
+                        "threads are serialised by the simulator: real-time overlap is replaced by happens-before analysis, by cooperative switches at scheduling points and by single-step preemption inside calls",
+                        "the reference model runs in the same process as the code under test (a change that adds process-wide registries sees the model's objects too)",
+                        "critical sections of locks the library takes (pthread mutex/rwlock/spin, pthread_once, static-initialisation guards) are atomic steps of the schedule"],
         "expected_probes": ["shared_cache_phase", "shared_dataset_phase", "concurrent_dataset_init_phase", "ro_guard"],
         "tiers": {
             "quick": [B("tsan-small-a", "tsan", "small-a", 1500, 40), B("plain-small-a", "plain", "small-a", 3000, 20), B("plain-small-b", "plain", "small-b", 1000, 8),
